@@ -1026,3 +1026,5 @@ _run6 = run
 def run(ctx, rep, tier):
     _run6(ctx, rep, tier)
     _empty_statement_sequences(ctx, rep, tier)
+    from .shared import delegate
+    delegate(ctx, rep, tier, "C20", ("C20.f",), "C18.p", "a diagnostic never reads the debug data of a dead object that owned the cited object's address (it may not render: position outside the current source)")
